@@ -27,6 +27,10 @@ def standard(records, names):
     out["preconditions_satisfiable"] = {"ok": bool(reach) and all(r["status"] == "discharged" for r in reach), "detail": {"instances": len(reach)}}
     marks = _assumption_scan()
     out["assumption_scan"] = {"ok": True, "detail": marks}
+    try:
+        out["numpy_models_crosscheck"] = models_crosscheck(0, 200)
+    except Exception as e:  # failing self-check voids the proof tier, never the verdict
+        out["numpy_models_crosscheck"] = {"ok": False, "detail": "%s: %s" % (type(e).__name__, e)}
     return out
 
 
@@ -182,3 +186,97 @@ def _lemma_injective(n, perm):
     except Exception as e:
         res = dict(status="undecided", backend="-", model=None, detail=str(e)[:200], ms=0.0)
     return [dict(function="permutation_operator", instance="lemma L2 n=%d perm=%s" % (n, list(perm)), kind="lemma", text="sigma(I) == sigma(I') implies I == I' (index map injective => permutation matrix => unitary)", claim=False, **res)]
+
+
+# ---------------------------------------------------------------------------------------------
+# cross-check of the numpy models (DESIGN §3.3) against real numpy on random concrete instances
+# ---------------------------------------------------------------------------------------------
+def models_crosscheck(seed=0, n=200):
+    import random
+
+    import numpy as np
+
+    rnd = random.Random(seed)
+    bad = []
+    done = 0
+
+    def concrete(arr, shape):
+        out = np.empty(shape, dtype=object)
+        for idx in np.ndindex(*shape):
+            e = arr.get(tuple(sp.Integer(i) for i in idx))
+            from vt.pyvc.sym import Entry, SumEntry
+
+            if isinstance(e, Entry):
+                out[idx] = tuple(int(x) for x in e.key()[1])
+            elif isinstance(e, SumEntry):
+                bound, body = e.flat()
+                acc = []
+                ranges = [range(int(r)) for _, r in bound]
+                for vals in itertools.product(*ranges):
+                    sub = {d: v for (d, _), v in zip(bound, vals)}
+                    acc.append(tuple(int(sp.sympify(x).subs(sub)) for x in body.key()[1]))
+                out[idx] = tuple(sorted(acc))
+            else:
+                out[idx] = None
+        return out
+
+    for k in range(n):
+        sym.reset_world()
+        nd = rnd.choice([1, 2, 2, 3, 3, 4])
+        shape = tuple(rnd.choice([1, 2, 3, 4]) for _ in range(nd))
+        size = int(np.prod(shape))
+        ref = np.empty(shape, dtype=object)
+        for idx in np.ndindex(*shape):
+            ref[idx] = tuple(idx)
+        X = SymArray(shape, lambda idx: Entry("X", idx))
+        op = rnd.choice(["reshape", "transpose", "gather", "diagsum", "vec"])
+        try:
+            if op == "reshape":
+                # random factorisation of size
+                fac = []
+                rem = size
+                for p in (2, 3, 2, 2, 3):
+                    if rem % p == 0 and rnd.random() < 0.7:
+                        fac.append(p)
+                        rem //= p
+                fac.append(rem)
+                rnd.shuffle(fac)
+                order = rnd.choice(["F", "C"])
+                got = concrete(X.reshape(fac, order=order), tuple(fac))
+                exp = ref.reshape(tuple(fac), order=order)
+            elif op == "transpose":
+                axes = list(range(nd))
+                rnd.shuffle(axes)
+                got = concrete(X.transpose(axes), tuple(shape[a] for a in axes))
+                exp = np.transpose(ref, axes)
+            elif op == "gather":
+                if nd != 2:
+                    continue
+                perm = list(range(shape[0]))
+                rnd.shuffle(perm)
+                ia = SymArray((shape[0],), (lambda pm: (lambda idx: sym.Num([(sp.Integer(pm[int(idx[0])]) if not isinstance(idx[0], sym.Num) else sp.Integer(pm[int(idx[0].value())]), sp.Integer(shape[0]))])))(perm), kind="index")
+                got = concrete(sym.getitem(X, (ia, slice(None))), shape)
+                exp = ref[perm, :]
+            elif op == "diagsum":
+                T = rnd.choice([1, 2, 3])
+                K = rnd.choice([1, 2])
+                Y = SymArray((K, K, T * T), lambda idx: Entry("X", idx))
+                refY = np.empty((K, K, T * T), dtype=object)
+                for idx in np.ndindex(K, K, T * T):
+                    refY[idx] = tuple(idx)
+                picked = sym.getitem(Y, (slice(None), slice(None), sym.StridedList(sp.Integer(T))))
+                summed = sym.sym_sum(picked, 2)
+                got = concrete(summed, (K, K))
+                exp = np.empty((K, K), dtype=object)
+                for i in range(K):
+                    for j in range(K):
+                        exp[i, j] = tuple(sorted(refY[i, j, t] for t in range(0, T * T, T + 1)))
+            else:
+                got = concrete(IL.spec_vec(X), (size, 1))
+                exp = ref.reshape((-1, 1), order="F")
+            done += 1
+            if got.shape != exp.shape or any(got[i] != exp[i] for i in np.ndindex(*exp.shape)):
+                bad.append("%s shape=%s" % (op, shape))
+        except Exception as e:  # a model that cannot even be evaluated concretely is a failed cross-check
+            bad.append("%s shape=%s: %s %s" % (op, shape, type(e).__name__, str(e)[:80]))
+    return {"ok": not bad and done > 0, "detail": {"instances": done, "mismatches": bad[:5]}}
